@@ -722,8 +722,46 @@ func (e *Ev) evSlice(x *ast.SliceExpr) Val {
 		}
 		return VStr{B: b.B, O: e.fx.name(sortInt, "so", sAdd(b.O, lo)), L: e.fx.name(sortInt, "sl", sSub(hi, lo))}
 	case VStrs:
-		// only full or [lo:] with arrays shifted is not needed so far
-		e.unsupp(x, "slicing of []string")
+		if e.contract {
+			e.unsupp(x, "slicing of []string in a contract")
+		}
+		lo, hi := "0", b.N
+		if x.Low != nil {
+			lo = e.intOf(e.ev(x.Low), x.Low)
+		}
+		if x.High != nil {
+			hi = e.intOf(e.ev(x.High), x.High)
+		}
+		// the capacity is not modelled: hi <= len is demanded (stricter than Go's hi <= cap)
+		e.safety("slice", "slice", x.Pos(), sAnd(sLe("0", lo), sLe(lo, hi), sLe(hi, b.N)), "slice bounds in range of "+exprString(x.X))
+		if lo == "0" {
+			return VStrs{B: b.B, O: b.O, L: b.L, N: e.fx.name(sortInt, "sn", hi)}
+		}
+		fx := e.fx
+		nb, no, nl := fx.declare(sortArrArr, "slb"), fx.declare(sortArr, "slo"), fx.declare(sortArr, "sll")
+		for _, pr := range [][2]Term{{nb, b.B}, {no, b.O}, {nl, b.L}} {
+			fx.emit(fmt.Sprintf("(assert (forall ((k Int)) (! (= (select %s k) (select %s (+ k %s))) :pattern ((select %s k)))))", pr[0], pr[1], lo, pr[0]))
+		}
+		return VStrs{B: nb, O: no, L: nl, N: fx.name(sortInt, "sn", sSub(hi, lo))}
+	case VRefs:
+		if e.contract {
+			e.unsupp(x, "slicing of a slice of references in a contract")
+		}
+		lo, hi := "0", b.N
+		if x.Low != nil {
+			lo = e.intOf(e.ev(x.Low), x.Low)
+		}
+		if x.High != nil {
+			hi = e.intOf(e.ev(x.High), x.High)
+		}
+		e.safety("slice", "slice", x.Pos(), sAnd(sLe("0", lo), sLe(lo, hi), sLe(hi, b.N)), "slice bounds in range of "+exprString(x.X))
+		if lo == "0" {
+			return VRefs{Arr: b.Arr, N: e.fx.name(sortInt, "rn", hi), Elem: b.Elem}
+		}
+		fx := e.fx
+		na := fx.declare(sortArr, "sl_refs")
+		fx.emit(fmt.Sprintf("(assert (forall ((k Int)) (! (= (select %s k) (select %s (+ k %s))) :pattern ((select %s k)))))", na, b.Arr, lo, na))
+		return VRefs{Arr: na, N: fx.name(sortInt, "rn", sSub(hi, lo)), Elem: b.Elem}
 	}
 	e.unsupp(x, "unsupported slice base %T", base)
 	return nil
@@ -846,6 +884,26 @@ func (e *Ev) evComposite(x *ast.CompositeLit) Val {
 				ll = fmt.Sprintf("(store %s %s %s)", ll, k, s.L)
 			}
 			return VStrs{B: e.fx.name(sortArrArr, "sb", bb), O: e.fx.name(sortArr, "so", oo), L: e.fx.name(sortArr, "sl", ll), N: fmt.Sprintf("%d", len(x.Elts))}
+		}
+		if en, ok := refLikeElem(u.Elem()); ok && !e.contract {
+			// a slice literal of references / modelled interface values
+			arr := "((as const (Array Int Int)) 0)"
+			for i, el := range x.Elts {
+				if _, isKV := el.(*ast.KeyValueExpr); isKV {
+					e.unsupp(el, "keyed element in a slice literal of references")
+				}
+				var rt Term
+				switch rv := e.ev(el).(type) {
+				case VRef:
+					rt = rv.T
+				case VNil:
+					rt = "0"
+				default:
+					e.unsupp(el, "element of a slice literal of references")
+				}
+				arr = fmt.Sprintf("(store %s %d %s)", arr, i, rt)
+			}
+			return VRefs{Arr: e.fx.name(sortArr, "ra", arr), N: fmt.Sprintf("%d", len(x.Elts)), Elem: en}
 		}
 		if b, ok := u.Elem().Underlying().(*types.Basic); ok && (b.Kind() == types.Int32 || b.Kind() == types.Uint8) {
 			// []rune{consts} / []byte{consts}: constant fold to a string
